@@ -1,0 +1,209 @@
+//go:build verif
+
+// Contracts for nsq_to_file (C19), checked by nsqvc. Comment-only file.
+// Assumed library contracts and ghost observers: .trusted/hfile.spec (event log of the output file).
+
+package main
+
+// Logging through the AppLogFunc field has no effect on modelled state (main's closure calls lg.Logf, which only
+// formats and prints; it does NOT exit on FATAL: every FATAL site is followed by os.Exit(1) in the source).
+//@ benign fieldfunc:github.com/nsqio/nsq/apps/nsq_to_file.FileLogger.logf
+
+// Configuration as validated by main(): --gzip-level in 1..9.
+//@ pred hCfg(f *FileLogger) := (f != nil && f.opts != nil && 1 <= f.opts.GZIPLevel && f.opts.GZIPLevel <= 9 && len(f.opts.DatetimeFormat) < 9223372036854775807)
+//@ pred hIsGz(w io.Writer, z *gzip.Writer) := (dyntype(w) == typetag("*gzip.Writer") && unbox(w, "*gzip.Writer") == z)
+//@ pred hIsFile(w io.Writer, o *os.File) := (dyntype(w) == typetag("*os.File") && unbox(w, "*os.File") == o)
+// While a file is open: the writer is the gzip writer on top of the file (gzip mode) or the file itself.
+//@ pred hWired(f *FileLogger) := (f.out != nil ==> (f.gzipWriter != nil ? (hIsGz(f.writer, f.gzipWriter) && hIsFile(hGzTarget(f.gzipWriter), f.out)) : hIsFile(f.writer, f.out)))
+// Every Write made so far is on disk, for gzip inside a complete (decompressible) member: see hfile.spec.
+//@ pred hDurable(gz bool) := (gz ? hFsyncGzAt == wCalls : hFsyncAt == wCalls)
+
+//@ func (f *FileLogger) Write(p []byte) (int, error)
+//@   props C19
+//@   requires f != nil && f.writer != nil
+//@   ensures[one-write-to-the-writer] wCalls == old(wCalls) + 1
+//@   ensures[error-returned] (result1 == nil) <==> (wErrs == old(wErrs))
+//@   ensures[size-accounted] old(f.filesize) + result0 <= 9223372036854775807 ==> f.filesize == old(f.filesize) + result0
+//@   ensures[all-or-error] result1 == nil ==> result0 == len(p)
+//@   modifies f.filesize, wN, wOut, wCalls, wErrs, wLastErr, wForeign
+//@   nochan
+
+// Sync: gzip => finish the gzip member (Close) THEN fsync the file; plain => fsync. Errors are returned.
+//@ func (f *FileLogger) Sync() error
+//@   props C19
+//@   requires hCfg(f) && f.out != nil && hWired(f)
+//@   ensures[durable-on-nil] result == nil ==> hDurable(old(f.gzipWriter) != nil)
+//@   ensures[gzip-member-closed-first] old(f.gzipWriter) != nil && result == nil ==> hGzCloses == old(hGzCloses) + 1 && hGzCloseErr == nil && hGzClosedW == old(f.gzipWriter) && hGzClosedAt == wCalls
+//@   ensures[file-fsynced] result == nil ==> hFsyncs == old(hFsyncs) + 1 && hFsyncErr == nil && hFsyncFile == f.out
+//@   ensures[gzip-close-error-returned] hGzCloses > old(hGzCloses) && hGzCloseErr != nil ==> result != nil
+//@   ensures[fsync-error-returned] hFsyncs > old(hFsyncs) && hFsyncErr != nil ==> result != nil
+//@   ensures[no-write-no-close] wCalls == old(wCalls) && wErrs == old(wErrs) && hFcloses == old(hFcloses)
+//@   ensures[same-file] f.out == old(f.out)
+//@   ensures[still-wired] hWired(f)
+//@   ensures[mode-kept] (f.gzipWriter != nil) <==> (old(f.gzipWriter) != nil)
+//@   modifies f.gzipWriter, f.writer, hGzCloses, hGzCloseErr, hGzClosedW, hGzClosedAt, hFsyncs, hFsyncErr, hFsyncFile, hFsyncAt, hFsyncGzAt
+//@   nochan
+
+// exclusiveRename: hard link (fails with EEXIST if dst exists) then remove the source; never os.Rename.
+//@ func exclusiveRename(src, dst string) error
+//@   props C19
+//@   ensures[nil-means-linked] result == nil ==> hLinks == old(hLinks) + 1 && hLinkErr == nil && hLinkSrc == src && hLinkDst == dst
+//@   ensures[nil-means-source-removed] result == nil ==> hRemoves == old(hRemoves) + 1 && hRemoveErr == nil && hRemoved == src
+//@   ensures[remove-only-after-link] hRemoves > old(hRemoves) ==> hLinks == old(hLinks) + 1 && hLinkErr == nil && hRemoved == src
+//@   ensures[link-error-returned] hLinkErr != nil && hLinks > old(hLinks) ==> result != nil && result == hLinkErr
+//@   ensures[one-attempt] hLinks == old(hLinks) + 1 && old(hRemoves) <= hRemoves && hRemoves <= old(hRemoves) + 1
+//@   ensures[never-plain-rename] hRenames == old(hRenames)
+//@   modifies hLinks, hLinkErr, hLinkSrc, hLinkDst, hRemoves, hRemoveErr, hRemoved
+//@   nochan
+
+// Every message handed to the router is a real message (go-nsq never calls a handler with nil: `requires m != nil`
+// below is that call-protocol assumption); checked at the only send, assumed at the router's receive.
+//@ chaninv FileLogger.logChan(v) := v != nil
+
+// HandleMessage: the message is taken out of go-nsq's auto-response BEFORE it is handed to the router, exactly one
+// message is handed over, and nil is returned (with auto-response disabled nil does not finish the message).
+//@ func (f *FileLogger) HandleMessage(m *nsq.Message) error
+//@   props C19
+//@   requires f != nil && m != nil
+//@   ensures[auto-response-disabled] autoResponseDisabled == old(autoResponseDisabled) + 1
+//@   ensures[handed-over-once] sent(f.logChan) == old(sent(f.logChan)) + 1 && lastsent(f.logChan) == m
+//@   ensures[result-nil] result == nil
+//@   ensures[not-finished-here] hFinishes == old(hFinishes)
+//@   modifies autoResponseDisabled
+
+// Close: (gzip: finish the member) -> fsync -> close, each must succeed (otherwise the process exits), then the
+// hand-off from the work dir to the output dir by exclusiveRename only. Nothing is written, nothing is acknowledged.
+//@ pred hCloseNoop() := (hGzCloses == old(hGzCloses) && hFsyncs == old(hFsyncs) && hFcloses == old(hFcloses) && hLinks == old(hLinks) && hRemoves == old(hRemoves) && hFsyncAt == old(hFsyncAt) && hFsyncGzAt == old(hFsyncGzAt) && hGzClosedAt == old(hGzClosedAt))
+//@ func (f *FileLogger) Close()
+//@   props C19
+//@   requires hCfg(f)
+//@   ensures[no-file-no-effect] old(f.out) == nil ==> hCloseNoop() && f.out == nil
+//@   ensures[durable-before-close] old(f.out) != nil ==> hDurable(old(f.gzipWriter) != nil)
+//@   ensures[gzip-member-finished] old(f.out) != nil && old(f.gzipWriter) != nil ==> hGzCloses == old(hGzCloses) + 1 && hGzCloseErr == nil && hGzClosedW == old(f.gzipWriter)
+//@   ensures[fsynced-then-closed] old(f.out) != nil ==> hFsyncs == old(hFsyncs) + 1 && hFsyncErr == nil && hFsyncFile == old(f.out) && hFcloses == old(hFcloses) + 1 && hFcloseErr == nil && hFclosedFile == old(f.out)
+//@   ensures[hand-off-by-link] old(f.out) != nil && f.opts.WorkDir != f.opts.OutputDir ==> hLinks > old(hLinks) && hLinkErr == nil && hLinkSrc == hFileName(old(f.out)) && hRemoves > old(hRemoves) && hRemoveErr == nil && hRemoved == hFileName(old(f.out))
+//@   ensures[same-dir-no-move] f.opts.WorkDir == f.opts.OutputDir ==> hLinks == old(hLinks) && hRemoves == old(hRemoves)
+//@   ensures[never-plain-rename] hRenames == old(hRenames)
+//@   ensures[no-write-no-ack] wCalls == old(wCalls) && wErrs == old(wErrs) && hFinishes == old(hFinishes) && hOpens == old(hOpens)
+//@   ensures[file-released-unless-moved] f.out == nil || (f.out == old(f.out) && f.opts.WorkDir != f.opts.OutputDir && hLinks == old(hLinks) + 1 && hLinkErr == nil)
+//@   modifies f.out, hGzCloses, hGzCloseErr, hGzClosedW, hGzClosedAt, hFsyncs, hFsyncErr, hFsyncFile, hFsyncAt, hFsyncGzAt, hFcloses, hFcloseErr, hFclosedFile, hLinks, hLinkErr, hLinkSrc, hLinkDst, hRemoves, hRemoveErr, hRemoved
+//@   nochan
+//@   loop 0
+//@     invariant[attempted] hLinks > old(hLinks) && hRemoves >= old(hRemoves)
+//@     invariant[never-plain-rename] hRenames == old(hRenames)
+//@     invariant[src-fixed] src == hFileName(old(f.out)) && f.out == old(f.out) && f.out != nil
+
+// Configuration never switches mode: without --gzip there is no gzip writer.
+//@ pred hMode(f *FileLogger) := (!f.opts.GZIP ==> f.gzipWriter == nil)
+
+// os.OpenFile flags (linux): O_WRONLY=1 O_CREATE=64 O_EXCL=128 O_TRUNC=512 O_APPEND=1024.
+// A file that may already exist is either refused (O_EXCL) or appended to (O_APPEND); it is never truncated.
+//@ pred hSafeFlags(flag int, excl bool) := ((flag & 512) == 0 && (flag & 64) != 0 && (flag & 3) == 1 && ((flag & 128) != 0 || (flag & 1024) != 0) && (excl ==> (flag & 128) != 0))
+//@ func (f *FileLogger) updateFile()
+//@   props C19
+//@   arith bv64
+//@   requires hCfg(f) && hMode(f)
+//@   ensures[previous-file-closed-durably] old(f.out) != nil ==> hDurable(old(f.gzipWriter) != nil) && hFcloses == old(hFcloses) + 1 && hFclosedFile == old(f.out) && hFcloseErr == nil
+//@   ensures[no-write-no-ack] wCalls == old(wCalls) && wErrs == old(wErrs) && hFinishes == old(hFinishes)
+//@   ensures[file-open] f.out != nil && fresh(f.out) && hOpenErr == nil && hFileName(f.out) == hOpenPath
+//@   ensures[exclusive-open] hSafeFlags(hOpenFlag, f.opts.GZIP || f.opts.RotateInterval > 0)
+//@   ensures[wired] hWired(f) && hMode(f) && (f.opts.GZIP ==> f.gzipWriter != nil)
+//@   ensures[never-plain-rename] hRenames == old(hRenames)
+//@   modifies f.out, f.rev, f.filename, f.openTime, f.filesize, f.gzipWriter, f.writer, lastNow, hOpens, hOpenFlag, hOpenPath, hOpenErr, hGzCloses, hGzCloseErr, hGzClosedW, hGzClosedAt, hFsyncs, hFsyncErr, hFsyncFile, hFsyncAt, hFsyncGzAt, hFcloses, hFcloseErr, hFclosedFile, hLinks, hLinkErr, hLinkSrc, hLinkDst, hRemoves, hRemoveErr, hRemoved
+//@   nochan
+//@   loop 0
+//@     invariant[every-open-so-far-safe] hOpens == old(hOpens) || hSafeFlags(hOpenFlag, f.opts.GZIP || f.opts.RotateInterval > 0)
+//@     invariant[previous-file-closed-durably] old(f.out) != nil ==> hDurable(old(f.gzipWriter) != nil) && hFcloses == old(hFcloses) + 1 && hFclosedFile == old(f.out) && hFcloseErr == nil
+//@     invariant[nothing-else] wCalls == old(wCalls) && wErrs == old(wErrs) && hFinishes == old(hFinishes) && hRenames == old(hRenames)
+//@     invariant[mode] hMode(f) && f.gzipWriter == old(f.gzipWriter)
+
+//@ func makeDirFromPath(logf lg.AppLogFunc, path string) error
+//@   props C19
+//@   ensures[no-file-touched] hOpens == old(hOpens) && hRemoves == old(hRemoves) && hRenames == old(hRenames) && hLinks == old(hLinks)
+//@   modifies
+//@   nochan
+
+// strftime: pure string formatting (frame only; needed so that rotation checks keep the file model).
+//@ func strftime(format string, t time.Time) string
+//@   props C19
+//@   requires[go-string-length] len(format) < 9223372036854775807
+//@   modifies
+//@   nochan
+//@   loop 0
+//@     invariant 0 <= i && i <= length && length == len(format)
+
+//@ func (f *FileLogger) currentFilename() string
+//@   props C19
+//@   requires hCfg(f)
+//@   modifies lastNow
+//@   nochan
+
+//@ func (f *FileLogger) needsRotation() bool
+//@   props C19
+//@   requires hCfg(f)
+//@   ensures[no-file-means-rotate] f.out == nil ==> result
+//@   modifies lastNow
+//@   nochan
+
+// router: the single goroutine that writes, syncs and acknowledges.
+//  finish-after-sync: no Finish() is ever sent while a Write is not durable (hAckNot*Fsynced unchanged), no Write failed
+//  before a Finish (a failed Write / Sync / Close exits the process), and Finish() is sent at most once per pair of
+//  successful Writes (body, newline): wCalls grows by exactly 2 per acknowledged message.
+//@ pred hNoUnsafeAck(gz bool) := (gz ? hAckNotGzFsynced == old(hAckNotGzFsynced) : hAckNotFsynced == old(hAckNotFsynced))
+//@ pred hRouterInv(f *FileLogger) := (hWired(f) && hMode(f) && (f.out != nil && f.opts.GZIP ==> f.gzipWriter != nil))
+//@ func (f *FileLogger) router()
+//@   props C19
+//@   requires hCfg(f) && hRouterInv(f) && f.consumer != nil
+//@   requires[max-in-flight-positive] f.opts.MaxInFlight >= 1
+//@   ensures[finish-after-sync] hNoUnsafeAck(f.opts.GZIP)
+//@   ensures[no-failed-write-before-finish] wErrs == old(wErrs)
+//@   ensures[two-writes-per-finish] wCalls - old(wCalls) == 2 * (hFinishes - old(hFinishes))
+//@   ensures[never-plain-rename] hRenames == old(hRenames)
+//@   loop 0
+//@     invariant[finish-after-sync] hNoUnsafeAck(f.opts.GZIP)
+//@     invariant[no-failed-write] wErrs == old(wErrs)
+//@     invariant[two-writes-per-message] wCalls - old(wCalls) == 2 * (hFinishes - old(hFinishes)) + 2 * pos
+//@     invariant[buffer] 0 <= pos && pos < len(output) && len(output) == cap(output)
+//@     invariant[flags-reset] !sync && !closeFile && !exit
+//@     invariant[file-while-pending] pos > 0 ==> f.out != nil
+//@     invariant[wired] hCfg(f) && hRouterInv(f) && f.consumer != nil && ticker != nil
+//@     invariant[never-plain-rename] hRenames == old(hRenames)
+//@   loop 1
+//@     invariant[durable-while-finishing] hDurable(f.opts.GZIP)
+//@     invariant[finish-after-sync] hNoUnsafeAck(f.opts.GZIP)
+//@     invariant[no-failed-write] wErrs == old(wErrs)
+//@     invariant[two-writes-per-message] wCalls - old(wCalls) == 2 * (hFinishes - old(hFinishes)) + 2 * pos
+//@     invariant[buffer] 0 <= pos && pos <= len(output) && len(output) == cap(output) && len(output) >= 1
+//@     invariant[wired] hCfg(f) && hRouterInv(f) && f.consumer != nil && f.out != nil && ticker != nil
+//@     invariant[never-plain-rename] hRenames == old(hRenames)
+
+// ---- topic_discoverer.go ---------------------------------------------------------------------------------
+// NewFileLogger: constructor (go-nsq consumer set-up, connects): assumed to allocate a new logger and to leave every
+// existing logger and the discoverer alone. Body not verified (go-nsq internals).
+//@ func NewFileLogger(logf lg.AppLogFunc, opts *Options, topic string, cfg *nsq.Config) (*FileLogger, error)
+//@   props C19
+//@   trusted
+//@   ensures[logger-or-error] result1 == nil ==> result0 != nil && fresh(result0)
+//@   modifies
+//@   nochan
+
+//@ func (t *TopicDiscoverer) isTopicAllowed(topic string) bool
+//@   props C19
+//@   requires t != nil && t.opts != nil
+//@   ensures[no-pattern-allows-all] t.opts.TopicPattern == "" ==> result
+//@   modifies
+//@   nochan
+
+// updateTopics: one logger (one router, one output file sequence) per topic: a topic that already has a logger keeps it;
+// no acknowledgement, write or file operation happens here.
+//@ func (t *TopicDiscoverer) updateTopics(topics []string)
+//@   props C19
+//@   requires t != nil && t.opts != nil && t.topics != nil
+//@   ensures[existing-loggers-kept] forall k string :: {t.topics[k]} old(has(t.topics, k)) ==> has(t.topics, k) && t.topics[k] == old(t.topics[k])
+//@   ensures[new-loggers-exist] forall k string :: {t.topics[k]} has(t.topics, k) && !old(has(t.topics, k)) ==> t.topics[k] != nil
+//@   ensures[no-ack-no-write] hFinishes == old(hFinishes) && wCalls == old(wCalls) && hRenames == old(hRenames) && hOpens == old(hOpens)
+//@   modifies mapof(t.topics)
+//@   loop 0
+//@     invariant[new-loggers-exist] forall k string :: {t.topics[k]} has(t.topics, k) && !old(has(t.topics, k)) ==> t.topics[k] != nil
+//@     invariant[existing-loggers-kept] forall k string :: {t.topics[k]} old(has(t.topics, k)) ==> has(t.topics, k) && t.topics[k] == old(t.topics[k])
+//@     invariant[no-ack-no-write] hFinishes == old(hFinishes) && wCalls == old(wCalls) && hRenames == old(hRenames) && hOpens == old(hOpens)
